@@ -13,6 +13,11 @@ Oracles (implementation only):
       `cattrs.global_converter` — answers every probe exactly as before;
   P3  the converter that received them behaves like a fresh converter with all its registrations.
 Model: the same store history through RUNHIST (`copy i cfg'`), compared on every probe (Converter, BaseConverter).
+Identity layer (corr:C18:LOCS): the same store history through LOCS (`Dispatch/Locs.lean`: containers are heap
+locations, `copy` transcribed from `BaseConverter.copy` / `copy_to`); the model's locations of (class registry,
+predicate list, union registry, direct table, lru) of every converter must show the same identity pattern as the
+`id()`s of the real containers of every real converter of the store -- theorem C18_no_shared_locations says no two
+converters share one; a registry handed over by reference shows up here even before any probe differs.
 The preconfigured subclass `cattrs.preconf.json.JsonConverter` is checked with the oracles only.
 
 The universe (dispatch_common) contains `Annotated[T, ...]` spellings of universe types, top level and as field types
@@ -26,6 +31,7 @@ F52 probe (implementation only): operating one converter on `G[int]` (generic at
 instance does with `G[int]`.
 """
 import copy as _copy
+import gc
 import itertools
 import json
 import os
@@ -98,12 +104,56 @@ def ext_battery(impl, idx):
     for name, d, t, x in EXT:
         if not cc.gen() and "An" in name or (not cc.gen() and t is ExtH):
             continue  # BaseConverter has no Annotated support
+        # (as in Impl.do: user hook factories created while this probe runs record whether they were handed THE
+        # converter being operated on -- a hook cached here is reused by the ordinary probes)
+        impl.current = idx
         try:
             r = conv.unstructure(x, unstructure_as=t) if d == UN else conv.structure(x, t)
             out[("ext", name)] = _ext_canon(r)
         except Exception as e:  # noqa: BLE001
             out[("ext", name)] = ("err", type(e).__name__)
+        finally:
+            impl.current = None
     return out
+
+
+# ---- identity layer (corr:C18:LOCS) -------------------------------------------------------------------------
+LOC_NAMES = ("class registry (_single_dispatch.registry)", "predicate list (_function_dispatch._handler_pairs)",
+             "union registry (_union_struct_registry)", "direct table (_direct_dispatch)", "lru cache (dispatch)")
+
+
+def real_containers(conv, d):
+    """the five mutable containers of one hook table of a real converter, in the order of `Conv.locs`
+    (None if the converter no longer has this shape -- reported, not an alarm)"""
+    try:
+        msd = conv._structure_func if d == ST else conv._unstructure_func
+        reg = msd._single_dispatch.registry          # a fresh mappingproxy per access: the dict is its referent
+        under = [o for o in gc.get_referents(reg) if isinstance(o, dict)]
+        if len(under) != 1:
+            return None
+        return [under[0], msd._function_dispatch._handler_pairs, conv._union_struct_registry, msd._direct_dispatch, msd.dispatch]
+    except AttributeError:
+        return None
+
+
+def model_locs(drv, history, d, cfgs0, preds):
+    """[[five locations] per converter of the final store] from the identity layer of the model"""
+    ctx0 = dc.ModelCtx(cfgs0[0], d, preds)
+    sops, _ = dc.model_ops(history, d, cfgs0)
+    parts = [f"(copy {s[1]} {ctx0.cfg_sx(s[2])})" if isinstance(s, tuple) else s for s in sops]
+    store = " ".join(ctx0.cfg_sx(cc) for cc in cfgs0)
+    others = [dc.ModelCtx(cc, d, preds) for cc in list(cfgs0[1:]) + [s[2] for s in sops if isinstance(s, tuple)]]
+    r = drv.ask(f"LOCS {ctx0.facts_sx(others)} ({store}) ({' '.join(parts)})")
+    if not r.startswith("(ok"):
+        raise lean.InfraError("model driver (LOCS): " + r[:200])
+    return [[int(x) for x in row] for row in dc.parse_sx(r)[0][1:]]
+
+
+def identity_pattern(rows, key):
+    """{((i, k), (j, l)) : same object?} over all pairs of containers of all converters"""
+    cells = [((i, k), key(x)) for i, row in enumerate(rows) for k, x in enumerate(row)]
+    return {(a, b): (xa == xb) for n, (a, xa) in enumerate(cells) for (b, xb) in cells[n + 1:]}
+
 
 
 def kname(k):
@@ -198,7 +248,8 @@ def fresh_replay(preds, cc, regs):
     return f
 
 
-def run_case(chk, drv, case, global_ref, stats, corr_fail):
+def run_case(chk, drv, case, global_ref, stats, corr_fail, loc_fail=None):
+    loc_fail = [] if loc_fail is None else loc_fail
     preds = dc.preds_from_json(case["preds"])
     cc0 = ConvCfg.from_json(case["cfg"])
     pre, copies, target, post = case["pre"], case["copies"], case["target"], case["post"]
@@ -310,6 +361,23 @@ def run_case(chk, drv, case, global_ref, stats, corr_fail):
                 stats["probes"] += 1
                 if m != after[i][(d, ty)]:
                     corr_fail.append((case, f"c{i} {d} {U.types[ty].name}: impl={after[i][(d, ty)]!r} model={m!r} term={mt[pos]!r} {wherep}"))
+        # ---- identity layer: which containers are the same object?
+        for d in DIRS:
+            real = [real_containers(c, d) for c in impl.convs]
+            if any(r is None for r in real):
+                stats["locs_skipped"] = stats.get("locs_skipped", 0) + 1
+                continue
+            locs = model_locs(drv, full, d, [cc0], preds)
+            if len(locs) != len(real):
+                raise lean.InfraError("LOCS: wrong number of converters")
+            pi, pm = identity_pattern(real, id), identity_pattern(locs, lambda x: x)
+            stats["locs"] = stats.get("locs", 0) + len(pi)
+            bad = [k for k in pi if pi[k] != pm[k]]
+            if bad:
+                (i, k), (j, l) = bad[0]
+                loc_fail.append((case, f"{d}: the {LOC_NAMES[k]} of c{i} and the {LOC_NAMES[l]} of c{j} are "
+                                       f"{'THE SAME OBJECT' if pi[bad[0]] else 'different objects'} in the implementation, "
+                                       f"{'the same location' if pm[bad[0]] else 'different locations'} in the model {wherep}"))
     dc.prune_linecache()
     for e in impl.reg_errors:
         viol.append(("C18 oracle: a registration raised: " + e, True))
@@ -426,6 +494,7 @@ def run(chk: framework.Check):
     drv = lean.Driver()
     stats = {"probes": 0, "copies": 0, "oracle_fail": 0}
     corr_fail = []
+    loc_fail = []
     quick = chk.tier == "quick"
     # ---- cross-instance isolation on generic classes (implementation only; F52 is its recorded failure)
     xi = cross_instance_probe()
@@ -473,7 +542,7 @@ def run(chk: framework.Check):
     for _ in range(n_rand):
         cases.append(gen_case(rng, quick))
     for case in cases:
-        viol = run_case(chk, drv, case, global_ref, stats, corr_fail)
+        viol = run_case(chk, drv, case, global_ref, stats, corr_fail, loc_fail)
         cc = ConvCfg.from_json(case["cfg"])
         key = json.dumps(case, sort_keys=True, default=str)
         chk.count(key, nontrivial=any(o["op"] in REG for o in case["pre"]),
@@ -499,6 +568,12 @@ def run(chk: framework.Check):
         for case, what in corr_fail[:5]:
             chk.violation("correspondence corr:C18:RUNHIST broken (theorems C18_* no longer tied to the code): " + what,
                           case, found_input=False)
+    if loc_fail and not stats["oracle_fail"]:
+        for case, what in loc_fail[:5]:
+            chk.violation("correspondence corr:C18:LOCS broken (theorem C18_no_shared_locations no longer tied to the code): "
+                          + what, case, found_input=False)
+    chk.extra["container_pairs_compared_by_identity"] = stats.get("locs", 0)
+    chk.extra["identity_comparisons_skipped"] = stats.get("locs_skipped", 0)
     chk.extra["rule"] = ("store histories: registrations+warm-ups on a converter ({Converter, BaseConverter, JsonConverter} x options x "
                          "fallback factories), copy()/deepcopy/copy(overrides) (also copy of a copy), divergent operations on one "
                          "converter; probes on every converter and on cattrs.global_converter; non-trivial = at least one "
@@ -520,9 +595,12 @@ def replay(case):
     global_ref = battery(gimpl, 0, GLOBAL_BATTERY)
     stats = {"probes": 0, "copies": 0, "oracle_fail": 0}
     corr = []
-    viol = run_case(None, drv, case, global_ref, stats, corr)
+    locf = []
+    viol = run_case(None, drv, case, global_ref, stats, corr, locf)
     for what, _ in viol:
         print("VIOLATED:", what[:1500])
+    for _, what in locf[:3]:
+        print("identity layer disagrees:", what[:1500])
     for _, what in corr[:3]:
         print("model disagrees:", what[:1500])
     if not viol:
